@@ -1131,7 +1131,7 @@ func replayC14(env *Env) {
 		if c.rootTaxid() != 1 {
 			r.count("cases.root_not_1", 1)
 		}
-		if i < 3 {
+		if c.n() >= 4 && len(c.Alias) > 0 {
 			env.sample(map[string]any{"parent": c.Parent, "rank": c.Rank, "alias": c.Alias, "lca": c.Lca, "grep": c.Grep})
 		}
 	})
